@@ -137,13 +137,7 @@ Definition fp_act (k : kind) (s s' : src) (a : action) : list fobs :=
   | ARearm => if k_timer k && negb (Bool.eqb (du_armed s) (du_armed s')) then [FWu (du_wlh s') (du_armed s') (du_nd s')] else []
   end.
 
-Definition reads_f (k : kind) (o : orc) (p : opc) : bool :=
-  match p with
-  | OP1 | OP2 | OP3b | OP4b | OCD1 | OCD2 => true
-  | OCD3 => true         (* dx_wakeup(ds, 0, EVENT | BARRIER_COMPLETE): _dispatch_source_wakeup reads the flags under the lock *)
-  | OA2 => k_timer k && c_cfg o
-  | _ => false
-  end.
+Definition reads_f := reads_flags.
 Definition footprint (k : kind) (o : orc) (p : opc) (s s' : src) (acts : list action) : list fobs :=
   (if reads_f k o p then [FRead] else []) ++ flat_map (fp_act k s s') acts.
 
